@@ -31,6 +31,11 @@ def make_lattice(spec):
         return Lattice(*spec["args"], baserot=spec.get("rot"))
     if spec["kind"] == "base":
         return Lattice(base=spec["base"])
+    if spec["kind"] == "rebase":
+        # an object that already went through setLatPar (as Structure() creates it) and is then re-defined in place
+        L = Lattice(*spec.get("first", [1.0, 1.0, 1.0, 90.0, 90.0, 90.0]))
+        L.setLatBase(spec["base"])
+        return L
     raise ValueError(spec)
 
 
